@@ -17,7 +17,8 @@ RULE = ("toggle declarations {letter or not} x {reversible or not} x {default no
         "{--t, -t, -tt, -tu, -ut, --no-t, --u, another option}; env words: the 30 documented ones, all "
         "their case variants, near misses and seeded random strings, with and without occurrences; "
         "distinct_nontrivial = distinct (declaration, env word, sequence) triples in which the toggle "
-        "occurs at least twice or an environment word is consulted")
+        "occurs at least twice or an environment word is consulted; plus a scale part: 64-1000 occurrences "
+        "(separate long, separate short, one bundle, mixed) and declared defaults up to 2^31-1")
 
 ENVN = optgen.ENVP + b"TG"
 NEAR = [b"yes ", b" 1", b"2", b"-1", b"tru", b"truee", b"o", b"of", b"nO", b"yES", b"01", b"1.0", b"t",
@@ -102,6 +103,28 @@ def gen(tier, seed, chunk, nch):
                             continue
                         cases.append({"decl": d, "env": {ENVN: w}, "argv": argv,
                                       "dv": [letter, rev, default, "word"]})
+    # scale: occurrence counts and defaults beyond narrow counters and small buffers
+    for letter in (True, False, "digit"):
+        sh = {True: b"t", "digit": b"4"}.get(letter)
+        for rev in (True, False):
+            for default in (None, 3, 127, 128, 200, 256, 65536, 2147483647):
+                d = _decl(letter, rev, default, False)
+                for n in (64, 65, 127, 128, 129, 255, 256, 257, 300, 1000):
+                    seqs = [[b"--tog"] * n, [b"--tog"] * (n - 1) + [b"--uu", b"--tog"]]
+                    if sh:
+                        seqs += [[b"-" + sh] * n, [b"-" + sh * n], [b"-" + sh * (n // 2)] + [b"--tog"] * (n - n // 2),
+                                 [b"-u" + sh * n], [b"-" + sh * (n - 1) + b"u" + sh]]
+                    if rev:
+                        seqs += [[b"--no-tog"] * n]
+                    if default is not None:
+                        seqs = seqs[:3] + [[], [b"--uu"]]
+                    for seq in seqs:
+                        k += 1
+                        if k % nch != chunk:
+                            continue
+                        if tier == "quick" and default not in (None, 128, 65536) and n not in (128, 256, 300):
+                            continue
+                        cases.append({"decl": d, "env": {}, "argv": seq, "dv": [letter, rev, default, "scale"]})
     # mixed random: longer sequences separated by other arguments
     rng2 = random.Random("c11-%d-%d" % (seed, chunk))
     for _ in range((4000 if tier == "quick" else 60000) // nch):
@@ -153,7 +176,10 @@ def evaluate(case, lines, S):
         S.counters["second-parse-on-the-same-parser"] += 1
     w = env.get(ENVN)
     occ = sum(1 for t in argv if t in (b"--tog", b"-t", b"-tt", b"-tu", b"-ut", b"--no-tog", b"-4", b"-44", b"-4u", b"-u4"))
-    S.counters["decl:letter=%s:rev=%s:default=%s" % tuple(case["dv"][:3])] += 1
+    if case["dv"][3] == "scale":
+        occ = len(argv) + 2
+    else:
+        S.counters["decl:letter=%s:rev=%s:default=%s" % tuple(case["dv"][:3])] += 1
     S.counters["part:" + case["dv"][3]] += 1
     S.counters["word:" + _wclass(w)] += 1
     if w is not None:
@@ -177,7 +203,7 @@ def evaluate(case, lines, S):
 
 
 def finish(run, S, tier):
-    for need in ("rejected:toggle-env-word", "rejected:both-polarities", "rejected:no-prefix-not-reversible",
+    for need in ("part:scale", "rejected:toggle-env-word", "rejected:both-polarities", "rejected:no-prefix-not-reversible",
                  "accepted", "word:truthy", "word:falsy", "word:case-variant", "word:other"):
         if S.counters.get(need, 0) == 0:
             run.inconc("class never exercised: " + need)
